@@ -346,3 +346,32 @@ theorem accessor_mem (st : Struct) (f : Field) (hf : f ∈ st.fields) (hd : isDo
     simp [cppFieldName_plain _ hd]
 
 end Emboss.Names
+
+/-! ## membership in a namespace scope -/
+namespace Emboss.Names
+
+theorem incompatible_of_ident' (a b : Decl) (hi : a.ident = b.ident) (hg : b.group = none) :
+    compatible a b = false := by
+  cases ha : a.group <;> simp [compatible, hi, hg, ha]
+
+theorem mem_zipIdx {α : Type} (l : List α) (a : α) (h : a ∈ l) : ∃ i, (a, i) ∈ zipIdx l := by
+  unfold zipIdx
+  obtain ⟨k, hk, rfl⟩ := List.mem_iff_getElem.mp h
+  refine ⟨k, ?_⟩
+  rw [List.mem_iff_getElem]
+  exact ⟨k, by simpa using hk, by simp⟩
+
+theorem structDecl_mem (sc : Scope) (n : Name) (hn : n ∈ sc.structs) :
+    ∃ i, ∀ d ∈ structDecls n i, d ∈ namespaceScope sc := by
+  obtain ⟨i, hi⟩ := mem_zipIdx sc.structs n hn
+  refine ⟨i, fun d hd => ?_⟩
+  unfold namespaceScope
+  exact List.mem_append_left _ (List.mem_append_left _ (List.mem_flatMap.mpr ⟨(n, i), hi, hd⟩))
+
+theorem enumDecl_mem (sc : Scope) (e : Name) (he : e ∈ sc.enums) :
+    ∀ d ∈ enumDecls e sc.traits, d ∈ namespaceScope sc := by
+  intro d hd
+  unfold namespaceScope
+  exact List.mem_append_left _ (List.mem_append_right _ (List.mem_flatMap.mpr ⟨e, he, hd⟩))
+
+end Emboss.Names
